@@ -164,6 +164,12 @@ class Walker:
                     return False
         return d == 0
 
+    @staticmethod
+    def store_version(events):
+        """number of plain stores through pointers so far on this path: two plain reads of one place denote the same value only
+        when no such store lies between them (the version is part of the value, so a snapshot taken earlier keeps its identity)"""
+        return sum(1 for e in events if e[0] == "N" and e[1] in ("PLAIN_W",))
+
     def read_place(self, pl, env, events):
         if pl[0] == "local":
             return env.get(pl, ("unk", "uninit %r" % (pl,)))
@@ -173,7 +179,7 @@ class Walker:
                 return self.read_place(v[1], env, events)
             if v[0] == "datacell":
                 return ("dataval", v[1])
-            return ("plain", pl)
+            return ("plain", pl, self.store_version(events))
         if pl[0] == "field":
             base = pl[1]
             if base[0] == "downcast":
@@ -195,7 +201,7 @@ class Walker:
                 ty = pl[3]
                 if "Atomic<" not in ty:
                     events.append(("N", "PLAIN_R", ("fieldof", base[1], pl[2])))
-                return ("plain", ("field", base, pl[2]))
+                return ("plain", ("field", base, pl[2]), self.store_version(events))
             return ("unk", "field %r" % (pl,))
         if pl[0] == "downcast":
             return self.read_place(pl[1], env, events)
@@ -416,7 +422,20 @@ class Walker:
                 targets.append((k.strip(), t.strip()))
             known = [int(k) for k, _ in targets if k != "otherwise"]
             cv = self.simplify(v)
+            # a condition over exactly the same value (same versioned reads) was decided earlier on this path: follow that outcome only
+            prev = None
+            if cv[0] != "const" and "dataval" not in repr(cv):
+                for e in events:
+                    if e[0] == "G" and e[1] == cv:
+                        prev = e[2]
             for k, t in targets:
+                if prev is not None:
+                    if k == "otherwise":
+                        ok = (isinstance(prev, tuple) and all(x in prev[1] for x in known)) or (isinstance(prev, int) and prev not in known)
+                    else:
+                        ok = (isinstance(prev, int) and prev == int(k)) or (isinstance(prev, tuple) and int(k) not in prev[1])
+                    if not ok:
+                        continue
                 if k == "otherwise":
                     if cv[0] == "const" and cv[1] in known:
                         continue
@@ -621,6 +640,13 @@ class Walker:
             return K(("unk", "vec copy"), events + [("N", "READ_BUF", args[0])])
         if re.match(r"^Vec::<u8>::extend_from_slice$", c) or c.endswith("extend_from_slice"):
             return K(("unk", "()"), events + [("N", "READ_BUF", args[1] if len(args) > 1 else ("unk", "src"))])
+        if re.match(r"^<(bytes::)?Bytes as (core::clone::)?Clone>::clone$", c) and args and args[0][0] == "ref":
+            # the clone is a handle on the same view: (ptr, len) are the source's at this moment (decided by the Kani step
+            # harnesses clone_step / promo_clone: c.ptr == b.ptr && c.len == b.len); data / vtable stay unknown
+            self.models_used.add("<Bytes as Clone>::clone = same (ptr, len)")
+            ver = self.store_version(events)
+            src = ("deref", args[0])
+            return K(("agg", "Bytes", [("plain", ("field", src, 0), ver), ("plain", ("field", src, 1), ver), ("unk", "clone.data"), ("unk", "clone.vtable")]))
         # ---- crate-local: inline
         g = self.resolve(c)
         if g is not None:
